@@ -110,6 +110,9 @@ def _regen_makefile():
     return True, ""
 
 
+RESOURCE_RETRIES = []      # (what, return code, stderr tail) of coqc / make runs that were repeated because they were killed / timed out
+
+
 def coq_build(target=None, timeout=3000):
     """.vo build (never -vos) of coq/theories, or of one target (e.g. theories/Props/C01.vo) and its
     dependency closure.  Serialised by a lock.  Returns (ok, log)."""
@@ -117,12 +120,23 @@ def coq_build(target=None, timeout=3000):
         ok, log = _regen_makefile()
         if not ok:
             return False, log
-        cmd = ["make", "-j16"] + ([target] if target else [])
-        try:
-            r = subprocess.run(cmd, cwd=COQ, capture_output=True, text=True, env=coq_env(), timeout=timeout)
-        except subprocess.TimeoutExpired:
-            return False, "make timed out"
-        return r.returncode == 0, r.stdout[-4000:] + r.stderr[-4000:]
+        log = ""
+        for jobs in ("-j16", "-j4"):
+            # second round only after a failure that looks like a resource problem (killed, out of memory, stack, time)
+            cmd = ["make", jobs] + ([target] if target else [])
+            try:
+                r = subprocess.run(cmd, cwd=COQ, capture_output=True, text=True, env=coq_env(), timeout=timeout)
+            except subprocess.TimeoutExpired:
+                log = "make timed out"
+                RESOURCE_RETRIES.append(("make " + str(target), 124, log))
+                continue
+            log = r.stdout[-4000:] + r.stderr[-4000:]
+            if r.returncode == 0:
+                return True, log
+            if not re.search(r"Killed|Error 137|Error 139|Out of memory|Stack overflow|Cannot allocate|Segmentation", log):
+                return False, log
+            RESOURCE_RETRIES.append(("make " + str(target), r.returncode, log[-200:]))
+        return False, log
 
 
 def vo_closure(target_v: str):
@@ -260,6 +274,12 @@ def run_vm_cases(pid: str, shard_name: str, preamble: str, case_terms: list, che
     lines.append("Eval vm_compute in (List.length results, failing).")
     path.write_text("\n".join(lines) + "\n")
     rc, out, err = coqc(path, timeout=timeout)
+    attempts = 0
+    while (rc == 124 or rc < 0) and attempts < 2:      # killed / timed out on a loaded machine: repeat before concluding anything
+        attempts += 1
+        RESOURCE_RETRIES.append((str(path), rc, (err or "")[-200:]))
+        time.sleep(5 * attempts)
+        rc, out, err = coqc(path, timeout=timeout * 2)
     if rc != 0:
         raise RuntimeError(f"coqc {path} failed (rc={rc}): {err[-2000:]}")
     flat = re.sub(r"\s+", " ", out)
@@ -308,6 +328,15 @@ def run_real_goals(pid, name, preamble, goals, shard=40, jobs=16, timeout=1200, 
             body = [f"Lemma g_{i} : {goals[i][0]}. Proof. {goals[i][1]} Qed." for i in idxs]
             path.write_text(preamble + "\n" + "\n".join(body) + "\n")
             rc, out, err = coqc(path, timeout=timeout)
+            # a coqc that was killed (negative return code: signal, e.g. out of memory on a loaded machine), timed out, or died
+            # without naming a line says nothing about the goals: run it again (alone in this worker, longer limit) before
+            # concluding anything
+            attempts = 0
+            while rc != 0 and (rc == 124 or rc < 0 or not re.search(r'line (\d+), characters', err)) and attempts < 2:
+                attempts += 1
+                RESOURCE_RETRIES.append((str(path), rc, (err or "")[-200:]))
+                time.sleep(5 * attempts)
+                rc, out, err = coqc(path, timeout=timeout * 2)
             if rc == 0:
                 break
             m = re.search(r'line (\d+), characters', err)
@@ -435,6 +464,8 @@ class Run:
                   assumptions=self.assumptions, wall_s=round(time.time() - self.t0, 2), violations=len(self.violations))
         if self.notes:
             ev["coverage"]["notes"] = self.notes
+        if RESOURCE_RETRIES:
+            ev["coverage"]["coqc_runs_repeated_after_kill_or_timeout"] = [list(x) for x in RESOURCE_RETRIES[:20]]
         EVIDENCE.mkdir(exist_ok=True)
         (EVIDENCE / f"{self.pid}.json").write_text(json.dumps(ev, indent=1, default=str))
         print(f"{self.pid} [{self.tier}] evaluations={self.cov['evaluations']} distinct_nontrivial={self.cov['distinct_nontrivial']} "
